@@ -35,7 +35,7 @@ ASSUMPTIONS = [
     "after a peer was reset only the surviving workers are judged, and only for ids announced after the reset completed",
 ]
 MIN_NONTRIVIAL = {"quick": 8, "thorough": 40}
-REQUIRED_COUNTERS = ["ids_announced", "deliveries_checked", "pushes_checked", "misaligned_chunks", "resubmissions", "deployment_configs"]
+REQUIRED_COUNTERS = ["ids_announced", "deliveries_checked", "pushes_checked", "misaligned_chunks", "resubmissions", "deployment_configs", "crowded_workers"]
 SHARD_TIMEOUT = {"quick": 600, "thorough": 3200}
 
 
@@ -278,6 +278,37 @@ async def run_case(nworkers, plan_, nids, counters, seed):
             if st.notifier.writer is None:
                 raise R.Inconclusive("a NotifyClient did not connect")
         key = ref.key_from_seed("c20")
+        churn_task = None
+        if seed % 3 == 0 and not plan_[0].startswith("reset"):
+            # a busy receiving worker: hundreds of open subscriptions on worker 0 and visitors that come and go
+            # (subscribe, close, disconnect) while ids arrive from the other workers
+            crowd = [rig.connect("crowd%d" % i, storage=storages[0]) for i in range(10)]
+            for c in crowd:
+                for j in range(30):
+                    c.feed(["REQ", "s%d" % j, {"kinds": [1, 30023], "since": gen.T0 + 10 ** 8}])
+            for c in crowd:
+                await c.processed(timeout=120)
+            counters["crowded_workers"] = counters.get("crowded_workers", 0) + 1
+
+            async def churn():
+                i = 0
+                try:
+                    while True:
+                        i += 1
+                        v = rig.connect("visitor%d" % i, storage=storages[0])
+                        v.feed(["REQ", "v", {"kinds": [7]}])
+                        await asyncio.sleep(0)
+                        v.feed(["CLOSE", "v"])
+                        await asyncio.sleep(0)
+                        v.disconnect()
+                        counters["visitors"] = counters.get("visitors", 0) + 1
+                        await asyncio.sleep(0.004)
+                        if i >= 250:
+                            break
+                except asyncio.CancelledError:
+                    pass
+
+            churn_task = asyncio.get_running_loop().create_task(churn(), name="harness-churn")
         pubs = [rig.connect("pub%d" % w, storage=st) for w, st in enumerate(storages)]
         produced = []  # (id, origin, after_reset)
         sent_events = {}
@@ -301,6 +332,12 @@ async def run_case(nworkers, plan_, nids, counters, seed):
             sent_events[ev["id"]] = ev
             if not burst or i % 17 == 0:
                 await asyncio.sleep(0.001)
+        if churn_task is not None:
+            churn_task.cancel()
+            try:
+                await churn_task
+            except BaseException:
+                pass
         # resubmissions: a stored event sent again (to the same or to another worker) is a duplicate
         # everywhere - nobody is told about it a second time
         for eid_, origin_, after_, kind_ in r.sample(produced, min(len(produced), max(4, len(produced) // 10))):
@@ -311,16 +348,36 @@ async def run_case(nworkers, plan_, nids, counters, seed):
             await pubs[target].cmd(["EVENT", ev_])
             counters["resubmissions"] = counters.get("resubmissions", 0) + 1
         # drain
-        for _ in range(400):
+        drained = False
+        last_seen, stable_since = -1, None
+        loop_ = asyncio.get_running_loop()
+        for _ in range(3000):
             await asyncio.sleep(0.01)
             if all(l.pending == 0 for l in links):
                 try:
                     await rig.quiesce(timeout=5, settle=5)
-                    if all(l.pending == 0 for l in links):
-                        break
                 except R.Inconclusive:
-                    pass
+                    continue
+                # the notify clients read from their own socket buffers: they are done when the number of ids they
+                # have looked up has not moved for two seconds of an otherwise idle relay
+                seen_now = sum(len(lg["get_event"]) + len(lg["notify_all"]) for lg in logs)
+                if seen_now != last_seen:
+                    last_seen, stable_since = seen_now, loop_.time()
+                elif loop_.time() - stable_since >= 2.0 and all(l.pending == 0 for l in links):
+                    drained = True
+                    break
+        if not drained:
+            # judging a system that is still working would turn lateness into loss
+            raise R.Inconclusive("links / relay tasks did not drain (pending %s, busy %s)" % ([l.pending for l in links], rig.busy_tasks()[:3]))
         await asyncio.sleep(0.05)
+        for w_, st_ in enumerate(storages):
+            t_ = getattr(st_.notifier, "_task", None)
+            if t_ is not None and t_.done() and w_ != reset_worker:
+                counters["notify_clients_ended"] = counters.get("notify_clients_ended", 0) + 1
+                try:
+                    counters["notify_client_end_reason"] = repr(t_.exception())[:200]
+                except BaseException as e_:
+                    counters["notify_client_end_reason"] = repr(e_)[:200]
         counters["ids_announced"] = counters.get("ids_announced", 0) + len(produced)
         counters["misaligned_chunks"] = counters.get("misaligned_chunks", 0) + sum(l.misaligned for l in links)
         if any(l.misaligned for l in links) or reset_worker is not None:
